@@ -4,6 +4,7 @@ from rules.common import (PredTrue, PredFalse, TryOk, CallTrue, VariantEdge, EQ,
                           all_origins, flat_atoms, overrides, may_tags, pool_writes, field_val, show, ops_of,
                           pred_test, eq_test, origin_match)
 from base import CutPolicy
+from rules.common import rel, rel_sign, om, find_rel
 from absint import EMPTY, const_of, vfield
 
 EXPLANATION = ("static analysis (MIR abstract interpretation): each creation precondition individually cuts every path to the creating "
@@ -35,11 +36,11 @@ ASSUME_CP = VariantEdge("assume ConstantProduct", r"^msg\.CreatePool\.pool_type$
 ASSUME_SS = VariantEdge("assume StableSwap", r"^msg\.CreatePool\.pool_type$", ["ConstantProduct"])
 
 CREATE_GUARDS = [
-    ("count>=2", [PredTrue("len(denoms)>=MIN", cmp_test(("ge",), DEN, r"^Const\(2_usize\)$"))], ()),
+    ("count>=2", [PredTrue("len(denoms)>=MIN", rel(DEN, ">=", r"^Const\(2_usize\)$"))], ()),
     ("count==decimals", [PredTrue("len(denoms)==len(decimals)", eq_test(DEN, DEC))], ()),
     ("cp=>2", [PredTrue("len(denoms)==2", eq_test(DEN, r"^Const\(2_usize\)$"))], (ASSUME_CP,)),
     ("amp!=0", [PredFalse("amp!=0", eq_test(r"^msg\.CreatePool\.pool_type\.StableSwap\.amp$", r"^Const\(0_u64\)$"))], (ASSUME_SS,)),
-    ("count<=MAX", [PredTrue("len(denoms)<=MAX", cmp_test(("le",), DEN, r"^Const\(4_usize\)$"))], ()),
+    ("count<=MAX", [PredTrue("len(denoms)<=MAX", rel(DEN, "<=", r"^Const\(4_usize\)$"))], ()),
     ("fees paid", [TryOk(r"helpers::validate_fees_are_paid$")], ()),
     ("no extra funds", [TryOk(r"helpers::validate_no_additional_funds_sent_with_pool_creation$")], ()),
     ("no duplicate denom", [PredFalse("any(duplicate denom)", lambda pn, pa: pn == "any" and origin_match(pa[0], DEN, require_all=False))], ()),
